@@ -262,6 +262,12 @@ type Tokenizer struct {
 	colMemoIndex     int
 	colMemoColumn    int
 	colMemoValid     bool
+
+	// Memo of the last leading-blank scan (see hasCodeBeforeOnLine): every byte
+	// of [blankMemoLineStart, blankMemoEnd) is blank.
+	blankMemoLineStart int
+	blankMemoEnd       int
+	blankMemoValid     bool
 }
 
 // New creates a new Tokenizer with default configuration and keyword support.
@@ -422,6 +428,7 @@ func (t *Tokenizer) Tokenize(input []byte) ([]models.TokenWithSpan, error) {
 	t.Reset()
 	t.input = input
 	t.colMemoValid = false
+	t.blankMemoValid = false
 
 	// Pre-allocate line starts slice - reuse if possible
 	estimatedLines := len(input)/50 + 1 // Estimate 50 chars per line + 1 for initial 0
@@ -562,6 +569,7 @@ func (t *Tokenizer) TokenizeContext(ctx context.Context, input []byte) ([]models
 	t.Reset()
 	t.input = input
 	t.colMemoValid = false
+	t.blankMemoValid = false
 
 	// Pre-allocate line starts slice - reuse if possible
 	estimatedLines := len(input)/50 + 1 // Estimate 50 chars per line + 1 for initial 0
@@ -1661,12 +1669,12 @@ func (t *Tokenizer) readPunctuation() (models.Token, error) {
 				contentStart := t.pos.Index
 				for t.pos.Index < len(t.input) {
 					if t.input[t.pos.Index] == '$' && t.pos.Index+len(closingTag) <= len(t.input) {
-						candidate := string(t.input[t.pos.Index : t.pos.Index+len(closingTag)])
-						if candidate == closingTag {
+						// compared in place: no copy of the candidate per $ of the body
+						if string(t.input[t.pos.Index:t.pos.Index+len(closingTag)]) == closingTag {
 							content := string(t.input[contentStart:t.pos.Index])
 							// Advance past the closing tag
 							for i := 0; i < len(closingTag); {
-								cr, cs := utf8.DecodeRune([]byte(closingTag[i:]))
+								cr, cs := utf8.DecodeRuneInString(closingTag[i:])
 								t.pos.AdvanceRune(cr, cs)
 								i += cs
 							}
@@ -1723,14 +1731,27 @@ func (t *Tokenizer) toSQLPosition(pos Position) models.Location {
 	// Column is 1-based, so we start at 1
 	column := 1
 	from := lineStart
-	if t.colMemoValid && t.colMemoLineStart == lineStart && t.colMemoIndex <= pos.Index {
-		// continue from the previous conversion on the same line
-		column = t.colMemoColumn
-		from = t.colMemoIndex
-	}
 	end := pos.Index
 	if end > len(t.input) {
 		end = len(t.input)
+	}
+	if t.colMemoValid && t.colMemoLineStart == lineStart {
+		if t.colMemoIndex <= pos.Index {
+			// continue from the previous conversion on the same line
+			column = t.colMemoColumn
+			from = t.colMemoIndex
+		} else if t.colMemoIndex-end < end-lineStart {
+			// a look-ahead was rewound: step back from the previous conversion
+			column = t.colMemoColumn
+			for i := end; i < t.colMemoIndex; i++ {
+				if t.input[i] == '\t' {
+					column -= 4
+				} else {
+					column--
+				}
+			}
+			from = end
+		}
 	}
 	for i := from; i < end; i++ {
 		if t.input[i] == '\t' {
@@ -1797,11 +1818,20 @@ func (t *Tokenizer) hasCodeBeforeOnLine(idx int) bool {
 	if n := sort.Search(len(t.lineStarts), func(i int) bool { return t.lineStarts[i] > idx }); n > 0 {
 		lineStart = t.lineStarts[n-1]
 	}
-	// Check for non-whitespace between lineStart and idx
-	for i := lineStart; i < idx && i < len(t.input); i++ {
+	// Check for non-whitespace between lineStart and idx; several comments on
+	// one line continue from the blanks already seen.
+	from := lineStart
+	if t.blankMemoValid && t.blankMemoLineStart == lineStart && t.blankMemoEnd <= idx {
+		from = t.blankMemoEnd
+	}
+	for i := from; i < idx && i < len(t.input); i++ {
 		if t.input[i] != ' ' && t.input[i] != '\t' && t.input[i] != '\r' {
+			t.blankMemoLineStart, t.blankMemoEnd, t.blankMemoValid = lineStart, i, true
 			return true
 		}
+	}
+	if idx <= len(t.input) {
+		t.blankMemoLineStart, t.blankMemoEnd, t.blankMemoValid = lineStart, idx, true
 	}
 	return false
 }
